@@ -84,7 +84,12 @@ RULE = ("random straight-line programs of 3-25 statements over CHText objects (s
         "bare chunk, against the join over the single characters; the items of a join handed over as tuple, generator, "
         "iterator, map, dict keys, reversed(); walking a text (list, tuple, for, comprehension, star-unpacking, next(), "
         "enumerate, *args), reversed(), `x in text` for one character in one colour, bool(); walking chunks; the walks "
-        "repeated after += changed the text; texts there have a colour run of >= 2 characters. "
+        "repeated after += changed the text; texts there have a colour run of >= 2 characters; "
+        "family 'long' (6 per quick run): texts of 257-300 alternating colour runs, each built in three ways out of doubled "
+        "pieces (constructor / += / join / slice of a longer text / copy + list) and compared ==, != in both orders, with a "
+        "copy, with their two halves glued together and with near misses; about 30 % of the programs that contain no operation "
+        "of a bare chunk returning a text run with a trivial user subclass `class T(CHText): pass` as the text class (results "
+        "must be T objects). "
         "Non-trivial = distinct program in which some object has >= 2 chunks or an exception/alias occurred.")
 TRUSTED_BASE = [
     "gen/C08_Consts.v: four facts read from ak/color.py by harness/props/c08.py:gen_consts (ast, fail closed): "
@@ -987,6 +992,89 @@ def _iter_walks(g, a, seps):
     g.emit(["iter", seps[0], "list"])
 
 
+def _long_program(rng):
+    """round 5: texts of 257-300 colour runs (alternating colours), each built in several ways out of doubled pieces
+    (so the Coq term stays small: d0 = two runs, d[i+1] = d[i] + d[i]) and compared ==, != in both orders: the same
+    text from the constructor / += / join / a slice of a longer text, a copy, its two halves glued together, and
+    near misses (last run recoloured, one run more / less)"""
+    g = _Gen(rng)
+    c1, c2 = rng.sample(["red", "green", "bb", "plain"], 2)
+    t1, t2 = _text(rng, 1, 2), _text(rng, 1, 2)
+    pair = len(t1) + len(t2)
+    d = [g.emit(["new", [["c", c1, t1], ["c", c2, t2]]])]
+    for _ in range(8):
+        d.append(g.emit(["add", d[-1], ["v", d[-1]]]))           # d[i] = 2**i pairs, d[8] = 512 runs
+    m = rng.randint(129, 150)                                  # pairs: 258..300 runs (+1 with the odd tail)
+    odd = rng.random() < 0.5
+    tail = [["c", c1, t1]] if odd else []
+    bits = [i for i in range(8, -1, -1) if m >> i & 1]
+    texts = []
+    ways = rng.sample(["ctor", "iadd", "join", "slice", "copyadd"], 3)
+    for way in ways:
+        if way == "ctor":
+            x = g.emit(["new", [["v", d[i]] for i in bits] + tail])
+        elif way == "iadd":
+            x = g.emit(["new", []])
+            for i in reversed(bits):
+                g.emit(["iadd", x, ["v", d[i]]])
+            for p in tail:
+                g.emit(["iadd", x, p])
+        elif way == "join":
+            e = g.emit(["new", []])
+            x = g.emit(["join", e, [["v", d[i]] for i in bits] + tail])
+        elif way == "slice":
+            x = g.emit(["slice", d[8], None, m * pair + (len(t1) if odd else 0)])
+        else:
+            x = g.emit(["new", [["v", d[bits[0]]]]])
+            x = g.emit(["add", x, ["l", [["v", d[i]] for i in bits[1:]] + tail]])
+        texts.append(x)
+    a = texts[0]
+    for b in texts[1:]:
+        g.emit(["eq", a, ["v", b]])
+    g.emit(["eq", texts[1], ["v", texts[2]]])
+    n = len(g.ref.vars[a])
+    k = rng.randint(1, n - 1)
+    s1 = g.emit(["slice", a, None, k])
+    s2 = g.emit(["slice", a, k, None])
+    glued = g.emit(["add", s1, ["v", s2]])
+    g.emit(["eq", a, ["v", glued]])
+    cp = g.emit(["new", [["v", a]]])
+    g.emit(["eq", cp, ["v", a]])
+    # near misses: the last character in another colour, one pair more, one character less
+    last = g.ref.vars[a][-1][0]
+    other = next(c for c in ["red", "green", "bb", "plain"] if c not in (c1, c2))
+    cut = g.emit(["slice", a, None, n - 1])
+    nm = g.emit(["add", cut, ["c", other, last]])
+    g.emit(["eq", a, ["v", nm]])
+    g.emit(["eq", a, ["v", cut]])
+    more = g.emit(["add", a, ["v", d[0]]])
+    g.emit(["eq", more, ["v", a]])
+    return {"tag": "long", "prog": g.prog}
+
+
+# round 5: statements whose result is a base-class CHText by construction (operations of a bare chunk) -- such a
+# result cannot be fed back into a SUBCLASS text (isinstance(other, type(self)) fails, str(other) is taken: so on
+# the unchanged code), hence programs containing them are not run with the subclass as the text class
+_CHUNK_MADE = {"cadd", "cradd", "cjoin", "cjoinit", "cfixed"}
+
+
+def _sub_ok(prog):
+    for st in prog:
+        if st[0] in _CHUNK_MADE:
+            return False
+        if st[0] == "radd" and st[1][0] == "c":         # chunk + text is the chunk's __add__: a base-class text
+            return False
+    return True
+
+
+def _tag_subclass(cases, rng, share):
+    """run a share of the programs with `class T(CHText): pass` as the text class (the model is class-agnostic)"""
+    for c in cases:
+        if c.get("tag") != "fixed" and _sub_ok(c["prog"]) and rng.random() < share:
+            c["cls"] = "sub"
+    return cases
+
+
 FIXED_CASES = [
     {"tag": "fixed", "prog": [["new", [["c", "red", "ab"], ["s", "c"], ["c", "green", "de"]]], ["new", [["c", "bb", "-"]]],
                               ["joinit", 1, ["v", 0]], ["iter", 0, "for"], ["riter", 0], ["in", 0, ["c", "red", "b"]],
@@ -1036,7 +1124,9 @@ def gen_cases(rng, tier):
         cases.append(_eq_program(rng))
     for _ in range(3000 if big else 260):
         cases.append(_iter_program(rng))
-    return cases
+    for _ in range(40 if big else 6):
+        cases.append(_long_program(rng))
+    return _tag_subclass(cases, rng, 0.3)
 
 
 def search_cases(rng, tier):
@@ -1053,7 +1143,9 @@ def search_cases(rng, tier):
         cases.append(_eq_program(rng))
     for _ in range(400):
         cases.append(_iter_program(rng))
-    return cases
+    for _ in range(12):
+        cases.append(_long_program(rng))
+    return _tag_subclass(cases, rng, 0.4)
 
 
 def kind(case):
@@ -1062,21 +1154,29 @@ def kind(case):
 
 def shrink_candidates(case):
     prog = case["prog"]
+    extra = {"cls": case["cls"]} if "cls" in case else {}
     # shorter prefixes first, then drop non-binding statements, then neutralise binding ones
     for n in range(1, len(prog)):
-        yield {"tag": case.get("tag", "prog"), "prog": prog[:n]}
+        yield {"tag": case.get("tag", "prog"), "prog": prog[:n], **extra}
     for i, st in enumerate(prog):
         if st[0] not in CREATING:
-            yield {"tag": case.get("tag", "prog"), "prog": prog[:i] + prog[i + 1:]}
+            yield {"tag": case.get("tag", "prog"), "prog": prog[:i] + prog[i + 1:], **extra}
     for i, st in enumerate(prog):
         if st[0] in CREATING and st != ["new", []]:
-            yield {"tag": case.get("tag", "prog"), "prog": prog[:i] + [["new", []]] + prog[i + 1:]}
+            yield {"tag": case.get("tag", "prog"), "prog": prog[:i] + [["new", []]] + prog[i + 1:], **extra}
 
 
 # ------------------------------------------------------------------ implementation
 def impl_run(case):
-    from ak.color import CHText, ColorFmt
-    Chunk = CHText.Chunk
+    from ak.color import CHText as BaseText, ColorFmt
+    Chunk = BaseText.Chunk
+    if case.get("cls") == "sub":
+        # a user's trivial subclass as the text class: every CHText operation promises type(self) results
+        class T(BaseText):
+            pass
+        CHText = T
+    else:
+        CHText = BaseText
     fmts = {name: ColorFmt(*a, **kw) for name, (a, kw) in COLORS.items()}
     pal = {}
     for name, f in fmts.items():
@@ -1197,7 +1297,7 @@ def impl_run(case):
         if k in CREATING:
             try:
                 r = create(st)
-                if type(r) is not CHText:
+                if not isinstance(r, BaseText):
                     raise TypeError("result is not a CHText")
             except Exception as e:  # noqa
                 sobs.append({"r": err(e)})
@@ -1206,6 +1306,9 @@ def impl_run(case):
             vs.append(r)
             first = next(i for i, v in enumerate(vs) if v is r)
             sobs.append({"r": ["ok", first], "snap": snap(r)})
+            if type(r) is not CHText and st[0] not in _CHUNK_MADE:
+                # recorded, and the program goes on with the object as it is (its later use shows the consequences)
+                sobs[-1]["type"] = type(r).__name__
         elif k == "iadd":
             x = vs[st[1]]
             old = x
@@ -1215,7 +1318,7 @@ def impl_run(case):
                 sobs.append({"r": err(e)})
                 continue
             vs[st[1]] = x
-            sobs.append({"r": ["ok", 1 if x is old else 0], "snap": snap(x) if type(x) is CHText else None})
+            sobs.append({"r": ["ok", 1 if x is old else 0], "snap": snap(x) if isinstance(x, BaseText) else None})
         elif k in ("fmt", "cfmt"):
             obj = vs[st[1]] if k == "fmt" else mkchunk(st[1])
             try:
@@ -1499,6 +1602,10 @@ def oracle(case, obs):
         k = st[0]
         r = o["r"]
         if k in CREATING:
+            if o.get("type"):
+                bad("result-type", f"stmt {i} {st}: the text class is a subclass of CHText (class T(CHText): pass) and the "
+                                   f"result is a {o['type']}, not a T: T's constructor, +, += and join take such an object "
+                                   f"through str(), its escape sequences become visible characters")
             try:
                 want = ref.create(st)
                 werr = None
